@@ -170,7 +170,14 @@ def sv_quoted(rng, reader):
     other = "'" if q == '"' else '"'
     r = rng.random()
     w = lambda: rng.choice(WORDS)  # noqa: E731
-    if r < 0.2:
+    if r < 0.06:
+        # long text with runs of spaces (wrapped by the ODL-family encoders)
+        words = [w() for _ in range(rng.randint(12, 30))]
+        content = words[0]
+        for x in words[1:]:
+            content += rng.choice((" ", " ", "  ", "   ")) + x
+        cls = "quoted:long-with-space-runs"
+    elif r < 0.2:
         content, cls = "", "quoted:empty"
     elif r < 0.4:
         content, cls = w(), "quoted:word"
